@@ -574,6 +574,9 @@ def ijepa(prog: Program, rep: Report):
                 and isinstance(val.args[1], ast.Call) and _n(val.args[1].func) == "len" and val.args[1].args:
             minima.append((n1, var, _n(val.args[1].args[0])))
     coll = [n3 for n3, c3 in fa.calls_named("default_collate")]
+    # (the masks may be stacked by hand instead: what matters is that they are cut before they are published in the context)
+    coll += [n3 for n3, nd3 in cfg.nodes.items() if nd3.kind == "stmt" and isinstance(nd3.ast, ast.Assign) and any(
+        isinstance(t3, ast.Subscript) and _n(t3.value) == "ctx" for t3 in nd3.ast.targets)]
     cut_vars = set()
     for n2 in cfg.nodes:
         for y in cfg.walk_node(n2):
